@@ -269,6 +269,57 @@ func TestVerif_C03(t *testing.T) {
 		vfC03Visit(r, c.name, "nesting-6", 0, &vfExec{}, cur, states, &smu)
 		r.Transitions(1)
 	}
+	// link-object capacity family: soft-link and external-link objects whose names bring their
+	// own object header to every size up to the single-chunk limit, then a hard link to the link
+	// object (its reference count message needs 8 more bytes of header): a hard link that is
+	// refused must leave no name behind, one that is accepted must resolve to the link object
+	{
+		type lj struct {
+			kind string
+			n    int
+			sb   string
+			cfg  []interface{}
+		}
+		var jobs []lj
+		for _, kind := range []string{"softlink", "extlink"} {
+			for n := 190; n <= 250; n++ {
+				jobs = append(jobs, lj{kind, n, "sb2", nil}, lj{kind, n, "sb0", []interface{}{WithSuperblockVersion(SuperblockV0)}})
+			}
+		}
+		vkit.ParallelFor(len(jobs), func(i int) {
+			j := jobs[i]
+			name := "/" + strings.Repeat("k", j.n)
+			h := []vfOp{{Op: "mkgroup", Path: "/a"}, {Op: j.kind, Path: name, Target: "/a"}, {Op: "hardlink", Path: "/hz", Target: name}}
+			ex := vfRun(dir, j.cfg, h, true)
+			r.Transitions(1)
+			r.Case(fmt.Sprintf("link-capacity/%s/%s/name-length-%d", j.sb, j.kind, j.n))
+			detail := map[string]any{"family": "link-capacity", "config": j.sb, "link_kind": j.kind, "name_length": j.n, "history": vfOpsString(h),
+				"hardlink_error": fmt.Sprint(ex.Errs[2])}
+			if ex.Errs[1] != nil {
+				r.Outcome("link-capacity:link-object-refused")
+				return // the long link itself was refused: nothing to link to
+			}
+			if ex.Closed == nil {
+				detail["open_error"] = fmt.Sprint(ex.ClosedErr)
+				r.Fail("link-capacity/"+j.kind+"/file-unopenable", detail)
+				return
+			}
+			hz := ex.Closed.Get("/hz")
+			if hz == nil {
+				hz = ex.Closed.Get("/hz/")
+			}
+			switch {
+			case ex.Errs[2] != nil && hz != nil:
+				r.Fail("link-capacity/"+j.kind+"/refused-hard-link-left-its-name-behind", detail)
+			case ex.Errs[2] == nil && hz == nil:
+				r.Fail("link-capacity/"+j.kind+"/accepted-hard-link-missing", detail)
+			case ex.Errs[2] != nil:
+				r.Outcome("link-capacity:refused-cleanly")
+			default:
+				r.Outcome("link-capacity:accepted")
+			}
+		})
+	}
 	r.States(int64(len(states)))
 	r.Sample(map[string]any{"sequence": "mkgroup(/a); mkgroup(/a/a); hardlink(/a/h->/a/a)", "expected_walk": []string{"/", "/a/", "/a/a/", "/a/h/"}})
 	r.Assume("soft and external links are expected to be visible at their path (any representation that is not a group/dataset of its own)")
